@@ -809,6 +809,10 @@ func resolveBlockAddress(block *hcl.Block, blockSchema *schema.BlockSchema) (lan
 				// non-string attributes are currently unsupported
 				return lang.Address{}, false
 			}
+			if val.IsNull() {
+				// null has no string representation
+				return lang.Address{}, false
+			}
 			stepName = val.AsString()
 		default:
 			// unknown step
